@@ -307,6 +307,20 @@ int __wrap_getentropy(void* buf, size_t n) {
     if (r == 0) { uint8_t* b = (uint8_t*)buf; for (size_t i = 0; i < n; i++) { uint8_t v = (uint8_t)(splitmix64(g_entropy_state) >> 13); b[i] = v; if (g_entropy_log) g_entropy_log->push_back(v); } }
     return r;
 }
+// getrandom(2), should the host use it: requests of up to 256 bytes are never interrupted, larger ones may come back short when a
+// signal arrives (the kernel's documented contract); EINTR before any byte was produced is possible as well
+ssize_t __real_getrandom(void*, size_t, unsigned);
+ssize_t __wrap_getrandom(void* buf, size_t n, unsigned flags) {
+    if (!sut()) return __real_getrandom(buf, n, flags);
+    const std::string f = g_cur_op ? g_cur_op->fault : std::string();
+    if (f == "getentropy_enosys") { if (S) { S->faults_fired++; S->fault_kind[F_EIO]++; } errno = ENOSYS; return -1; }
+    int nth = ++g_callcount["getrandom"];
+    size_t give = n;
+    if (f == "getrandom_eintr" && nth == 1) { if (S) { S->faults_fired++; S->fault_kind[F_EINTR]++; } errno = EINTR; return -1; }
+    if (f == "getrandom_short" && nth == 1 && n > 256) { give = 256 + (n - 256) / 3; if (S) { S->faults_fired++; S->fault_kind[F_SHORT_READ]++; } }
+    uint8_t* b = (uint8_t*)buf; for (size_t i = 0; i < give; i++) { uint8_t v = (uint8_t)(splitmix64(g_entropy_state) >> 13); b[i] = v; if (g_entropy_log) g_entropy_log->push_back(v); }
+    return (ssize_t)give;
+}
 // clock faults for C15 (simcore calls this weak hook first)
 int sim_clock_hook(clockid_t id, struct timespec* ts, int* result) {
     (void)id; (void)ts;
